@@ -2,6 +2,7 @@ import Driver.Proto
 import Driver.CifArg
 import CifModel.Model.StoreStep
 import CifModel.Model.StoreFault
+import CifModel.Model.StoreContract
 /-
   family `store` (C04, C05) — and, through Driver/Fam/Iter.lean, family `iter` (C06): one request = one whole history.
   Request / answer formats: see harness/x_store.c (the executor of the real code); this file produces the same text from
@@ -217,14 +218,15 @@ def showResult (op : Op) (r : Result) : String :=
        | _, o => showOut o)
 
 /-- ` ; ac=<bits> <slot>:<dump|=> …`; `last` = previous dump text of each slot -/
-def observe (w : World) (last : List (Option String)) : String × List (Option String) :=
+def observe (w : World) (last : List (Option String)) (ic : Bool := true) : String × List (Option String) :=
   let bits := String.join (w.cifs.map (fun c => match c with | some s => if s.autocommit then "1" else "0" | none => "x"))
   let (txt, last') := (List.range w.cifs.length).foldl (fun (acc : String × List (Option String)) i =>
       match w.cifs.getD i none with
       | none => (acc.1, acc.2 ++ [none])
       | some s =>
-        let d := showDump s ++ (if s.db.rowsBelowB then "" else " !rows-above-last_row_num")
-          ++ (if s.db.packetsTotalB then "" else " !packet-not-total")
+        -- executable double check of `C04_wok_hist`: as long as the history keeps to the contract the two invariants hold
+        let d := showDump s ++ (if !ic || s.db.rowsBelowB then "" else " !rows-above-last_row_num")
+          ++ (if !ic || s.db.packetsTotalB then "" else " !packet-not-total")
         if (last.getD i none) == some d then (acc.1 ++ " " ++ toString i ++ ":=", acc.2 ++ [some d])
         else (acc.1 ++ " " ++ toString i ++ ":" ++ d, acc.2 ++ [some d])) ("", [])
   (" ; ac=" ++ bits ++ txt, last')
@@ -242,9 +244,10 @@ def showStep (c : Option Caller) (op : Op) (r : Result) : String :=
   | _, _, _ => showResult op r
 
 def runOps (ops : List (Mark × Option Caller × Op)) : String :=
-  let (_, _, out) := ops.foldl (fun (acc : World × List (Option String) × String) mo =>
-      let (w, last, out) := acc
+  let (_, _, out, _) := ops.foldl (fun (acc : World × List (Option String) × String × Bool) mo =>
+      let (w, last, out, ic0) := acc
       let (m, c, op) := mo
+      let ic := ic0 && inContract w op
       match m with
       | .faulted rc =>
         -- the model of the documented failure path (Model/StoreFault.lean); an op that is not executed at all stays skipped
@@ -252,18 +255,29 @@ def runOps (ops : List (Mark × Option Caller × Op)) : String :=
         | some _ =>
           let (w1, _) := stepFaultAt w op (.inside false)
           let w2 := pushDead w1 op
-          let (obs, last1) := observe w2 last
-          (w2, last1, out ++ " | rc=" ++ toString rc ++ " !fault1" ++ obs)
+          let (obs, last1) := observe w2 last ic
+          (w2, last1, out ++ " | rc=" ++ toString rc ++ " !fault1" ++ obs, ic)
         | none =>
           let (w1, r) := step w op
-          let (obs, last1) := observe w1 last
-          (w1, last1, out ++ showStep c op r ++ " !fault1" ++ obs)
+          let (obs, last1) := observe w1 last ic
+          (w1, last1, out ++ showStep c op r ++ " !fault1" ++ obs, ic)
       | _ =>
         let (w1, r) := step w op
-        let (obs, last1) := observe w1 last
+        let (obs, last1) := observe w1 last ic
         let tag := match m with | .mark f => " !fault" ++ toString f | _ => ""
-        (w1, last1, out ++ showStep c op r ++ tag ++ obs)) (({} : World), [], "st")
+        (w1, last1, out ++ showStep c op r ++ tag ++ obs, ic)) (({} : World), [], "st", true)
   out
+
+/-- family `storecontract`: `ic` when every op of the history is in contract (Model/StoreContract `inContract`) in the world it
+    meets, else `oc <index of the first op that is not>` -/
+def contractOf (ops : List (Mark × Option Caller × Op)) : String :=
+  let (_, first, _) := ops.foldl (fun (acc : World × Option Nat × Nat) mo =>
+      let (w, first, idx) := acc
+      let op := mo.2.2
+      (((step w op).1), (if first.isNone && !inContract w op then some idx else first), idx + 1)) (({} : World), none, 0)
+  match first with
+  | none => "ic"
+  | some k => "oc " ++ toString k
 
 def handle : Handler := fun args =>
   (parseOps (args.length + 1) args).map runOps
